@@ -8,7 +8,7 @@ from engine import Op, set_mode
 
 PROP = "C11"
 QUICK_BOOST = 3
-LEAN_MODULES = ["IsoDT.Props.C11", "IsoDT.Props.C11q"]
+LEAN_MODULES = ["IsoDT.Props.C11", "IsoDT.Props.C11q", "IsoDT.Props.C11ord"]
 RULE = ("pairs / triples of Durations in week form and unit form, mixed signs, unit-boundary magnitudes "
         "(7 d, 24 h, 60 min, 60 s, 365/360 d, 30 d) and integer multipliers; non-trivial when the operands "
         "spell their length in different units or forms; distinct by (op, arguments)")
